@@ -59,6 +59,10 @@ def children(t):
         return [((1, i), p, []) for i, p in enumerate(t[1]) if not isinstance(p, str)]
     if k == "std":
         return [((2, i), a, []) for i, a in enumerate(t[2])]
+    if k == "lets":      # ("lets", rec?, [(x, e)], body): multi-binding let / let rec (beyond the Coq fragment)
+        ns = [x for x, _ in t[2]]
+        res = [((2, i, 1), e, ns if t[1] else []) for i, (x, e) in enumerate(t[2])]
+        return res + [((3,), t[3], ns)]
     if k == "match":
         # ("match", scrutinee, [(pattern, body)]) ; pattern = ("ptag", T) | ("pany",) | ("prec", [names])
         res = [((1,), t[1], [])]
@@ -183,6 +187,8 @@ def nickel(t, imp):
     if k == "import":
         return '(import "%s")' % imp[t[1]]
     # ---- beyond the Coq fragment
+    if k == "lets":
+        return "(let %s%s in %s)" % ("rec " if t[1] else "", ", ".join("%s = %s" % (x, n(e)) for x, e in t[2]), n(t[3]))
     if k == "interp":
         return '"%s"' % "".join(p if isinstance(p, str) else "%{" + n(p) + "}" for p in t[1])
     if k == "enum":
@@ -320,6 +326,21 @@ class Gen:
             return r.choice(vs)
         if d <= 0:
             return r.choice(vs) if vs and r.chance(1, 2) else self.lit(ty, sc, 0)
+        if self.ext and r.chance(1, 12):
+            # multi-binding let: the bound expressions see the outer scope, not each other
+            x, y = self.fresh(), self.fresh(unique=True)
+            t1, t2 = self.rand_type(1), self.rand_type(1)
+            return ("lets", False, [(x, self.gen(t1, sc, d - 1)), (y, self.gen(t2, sc, d - 1))],
+                    self.gen(ty, sc + [(x, t1), (y, t2)], d - 1))
+        if self.ext and ty == "bool" and r.chance(1, 6):
+            # mutual recursion through a two-binding let rec
+            ev, od, nn = self.fresh(unique=True), self.fresh(unique=True), self.fresh(unique=True)
+            dec = ("bin", "sub", ("var", nn), ("num", 1))
+            zero = ("bin", "lt", ("var", nn), ("num", 1))
+            return ("lets", True,
+                    [(ev, ("lam", nn, ("if", zero, ("bool", True), ("app", ("var", od), dec)))),
+                     (od, ("lam", nn, ("if", zero, ("bool", False), ("app", ("var", ev), dec))))],
+                    ("app", ("var", r.choice([ev, od])), ("num", r.range(0, 5))))
         if self.ext and r.chance(2, 5):
             return self.by_type(ty, sc, d)
         c = r.below(100)
@@ -702,7 +723,7 @@ def corpus_cases():
 
 def to_tuple(x):
     """json -> tree (lists that are nodes become tuples; child lists stay lists)"""
-    if isinstance(x, list) and x and isinstance(x[0], str) and x[0] in BASE | {"interp", "enum", "match", "ann", "merge", "eq", "std", "ptag", "pany", "prec"}:
+    if isinstance(x, list) and x and isinstance(x[0], str) and x[0] in BASE | {"interp", "enum", "match", "ann", "merge", "eq", "std", "ptag", "pany", "prec", "lets"}:
         k = x[0]
         if k == "arr":
             return ("arr", [to_tuple(e) for e in x[1]])
@@ -716,6 +737,8 @@ def to_tuple(x):
             return ("match", to_tuple(x[1]), [(to_tuple(p), to_tuple(b)) for p, b in x[2]])
         if k == "prec":
             return ("prec", tuple(x[1]))
+        if k == "lets":
+            return ("lets", bool(x[1]), [(y, to_tuple(e)) for y, e in x[2]], to_tuple(x[3]))
         return tuple([k] + [to_tuple(a) if isinstance(a, list) else a for a in x[1:]])
     return x
 
